@@ -39,10 +39,33 @@ def _tqdm(it=None, *a, **k):
     return it
 
 
-class _FixedTime:
+import time as _real_time
+
+
+class SimClock:
+    """Stands in for the `time` module object referenced by a repo module: a virtual clock.  Reading it costs
+    nothing and returns simulated seconds; sleeping advances it instead of blocking, so a retry loop with
+    back-off runs in microseconds and is part of the simulated history."""
+    now = 0.0
+    slept = 0.0
+
+    def __getattr__(self, name):
+        return getattr(_real_time, name)
+
     @staticmethod
     def time():
-        return 0.0
+        return SimClock.now
+
+    monotonic = perf_counter = time
+
+    @staticmethod
+    def sleep(d):
+        d = max(0.0, float(d))
+        SimClock.now += d
+        SimClock.slept += d
+
+
+_FixedTime = SimClock()
 
 
 def pin_dependencies(config_path=None, pool_seed=0):
@@ -54,7 +77,11 @@ def pin_dependencies(config_path=None, pool_seed=0):
     mtscomp.ThreadPool = InlinePool
     mtscomp.tqdm = _tqdm
     mtscomp.CONFIG_PATH = Path(config_path) if config_path else Path("/nonexistent/.mtscomp")
-    spikeglx.time = _FixedTime
+    import sys
+    for name in ("spikeglx", "neuropixel", "mtscomp", "ibldsp.voltage", "ibldsp.waveform_extraction", "ibldsp.utils", "ibldsp.fourier"):
+        m = sys.modules.get(name)
+        if m is not None and (name == "spikeglx" or "time" in m.__dict__) and getattr(m.__dict__.get("time"), "__name__", "time") == "time":
+            m.__dict__["time"] = _FixedTime
 
 
 def write_config(path, knobs):
@@ -79,6 +106,7 @@ def run_step(root, do_step, step, fault=None, config_path=None, pool_seed=0, tim
         import logging
         logging.disable(logging.CRITICAL)
         pin_dependencies(config_path, pool_seed)
+        _real_time.sleep = SimClock.sleep          # this process is the system's: no real blocking anywhere
         mods = seam_modules()
         fsseam.install(mods)
         if pre is not None:
